@@ -12,6 +12,7 @@ import (
 	"fmt"
 	"math/big"
 	"math/rand"
+	"reflect"
 	"strings"
 	"time"
 
@@ -172,6 +173,9 @@ func Assume(c bool) {
 }
 
 func Assert(c bool, label string) {
+	if muted {
+		return
+	}
 	if c {
 		fmt.Println("TRACE assert-ok", label)
 	} else {
@@ -181,7 +185,31 @@ func Assert(c bool, label string) {
 }
 
 // Cover marks a point that must be reachable (vacuity guard) and is part of the validated trace.
-func Cover(label string) { fmt.Println("TRACE cover", label) }
+func Cover(label string) {
+	if !muted {
+		fmt.Println("TRACE cover", label)
+	}
+}
+
+// ---- C19: run-to-run variation -------------------------------------------------------------------------------------------
+// Symbolically the sources of variation Go has (map iteration order, clock, randomness, addresses rendered in texts) are
+// symbolic inputs of the run; natively they are whatever this process happens to produce, so a harness that compares two
+// runs repeats the second one a number of times (Retries) — silently (Mute) — to give Go's map randomisation a chance.
+
+var muted bool
+
+// Schedule(true) releases the iteration order of map ranges for the code that runs afterwards (symbolically: a fork per
+// order; natively: nothing to do, the runtime randomises).
+func Schedule(on bool) {}
+
+// Retries is how often the native run repeats a comparison (symbolically 1: every order is explored by the solver).
+func Retries(n int) int { return n }
+
+// Mute switches the trace (and assertions) off for the repeats of a native comparison.
+func Mute(on bool) { muted = on }
+
+// Same reports whether two values have the same CONTENT (pointers are followed): what a replaying node would observe.
+func Same(a, b any) bool { return reflect.DeepEqual(a, b) }
 
 // NewEnv returns a context and a KV store service. Natively: a real in-memory IAVL multistore
 // (as testutil/mocks.NewDependencies). Symbolically: intercepted, opaque (collections are summarised).
@@ -314,6 +342,18 @@ func EncodeMemo(w *core.PayloadWrapper, extraRootKeys int) string {
 		panic(Diverged{"memo cannot be marshalled natively: " + err.Error()})
 	}
 	s := string(bz)
+	// negative: the root key in another letter case (-1 "ORBITER", -2 "Orbiter", -3 "orbiter" and "Orbiter")
+	if extraRootKeys < 0 && strings.HasPrefix(s, `{"orbiter":`) {
+		body := s[len(`{"orbiter":`) : len(s)-1]
+		switch extraRootKeys {
+		case -1:
+			s = `{"ORBITER":` + body + "}"
+		case -2:
+			s = `{"Orbiter":` + body + "}"
+		default:
+			s = `{"orbiter":` + body + `,"Orbiter":` + body + "}"
+		}
+	}
 	for k := 0; k < extraRootKeys; k++ {
 		s = s[:len(s)-1] + fmt.Sprintf(",\"extra%d\":1}", k)
 	}
